@@ -364,7 +364,7 @@ func copyFile(src, dst string) error {
 	return out.Close()
 }
 
-func randomHash() hash.SHA256Hash {
+func unusedRandomHash() hash.SHA256Hash {
 	var h hash.SHA256Hash
 	_, _ = crand.Read(h[:])
 	return h
